@@ -4,11 +4,43 @@ from concurrent.futures import ProcessPoolExecutor
 from vlib.common import Report, Obligation
 
 
+class WorkBudget(BaseException):
+    """raised inside a worker when one contract has used up its wall-clock budget"""
+
+
+def _alarm(signum, frame):
+    raise WorkBudget()
+
+
 def _work(job):
     prop, cmod_name, index, tier, seed, shard = job
     from pyvc.contract import Verifier
     rep = Report(prop, tier, seed)
     t0 = time.time()
+    import signal
+    budget = int(os.environ.get("VERIF_CONTRACT_BUDGET_S", "900" if tier == "quick" else "5400"))
+    try:
+        signal.signal(signal.SIGALRM, _alarm)
+        signal.alarm(budget)
+    except Exception:
+        pass
+    try:
+        return _work_inner(job, rep, t0)
+    except WorkBudget:
+        # what was decided before the budget ran out stands; the rest of this contract is undecided (never a violation)
+        rep.downgraded.append({"function": f"{cmod_name}[{index}]{shard}", "reason": [f"wall-clock budget of {budget} s for one contract used up"],
+                               "downgraded": "proof->undecided (time budget)"})
+        return export(rep)
+    finally:
+        try:
+            signal.alarm(0)
+        except Exception:
+            pass
+
+
+def _work_inner(job, rep, t0):
+    prop, cmod_name, index, tier, seed, shard = job
+    from pyvc.contract import Verifier
     try:
         from vlib.common import adversarial_warmup
         adversarial_warmup()
